@@ -752,4 +752,316 @@ example : (run failAt1 guarded ⟨envA, fun _ => .other, 0⟩).2 = .raised := by
 example : (run failAt1 unguardedPop ⟨envA, fun _ => .other, 0⟩).1.env "A" = none := by decide
 example : (run failAt1 guardedPop ⟨envA, fun _ => .other, 0⟩).1.env "A" = some "/calib" := by decide
 
+/-! ## extension round 2: compositionality, monotonicity in the declared set, exactness on a fragment -/
+
+/-- the property statement for one program, semantically: whatever the oracle, whatever the initial
+state, the run ends with the environment it started with -/
+def Restoring (p : Stmt) : Prop := ∀ (o : Oracle) (s : St), (run o p s).1.env = s.env
+
+/-- an accepted program is restoring (`restores_sound` in this vocabulary) -/
+theorem restores_restoring {p : Stmt} {vs : List Var} (h : restores p vs = true) : Restoring p :=
+  restores_sound p vs h
+
+/-- a program that writes no variable at all is restoring (env-neutral) -/
+theorem neutral_restoring {p : Stmt} (h : writes p = []) : Restoring p := by
+  intro o s
+  funext v
+  exact run_env_frame o p s v (by rw [h]; exact List.not_mem_nil)
+
+/-- **restoring_seq** - the sequence of two restoring programs is restoring -/
+theorem restoring_seq {p q : Stmt} (hp : Restoring p) (hq : Restoring q) : Restoring (.seq p q) := by
+  intro o s
+  have h1 := hp o s
+  simp only [run]
+  split
+  · next s' heq => rw [heq] at h1; rw [hq o s']; exact h1
+  · next r _ => exact h1
+
+/-- **restoring_tryFinally** - a restoring block under a restoring (in particular: env-neutral)
+finaliser is restoring, whichever way the block and the finaliser are left -/
+theorem restoring_tryFinally {a b : Stmt} (ha : Restoring a) (hb : Restoring b) :
+    Restoring (.tryFinally a b) := by
+  intro o s
+  have h1 := ha o s
+  have h2 := hb o (run o a s).1
+  simp only [run]
+  split
+  · next s'' heq => rw [heq] at h2; rw [h2]; exact h1
+  · next r _ => rw [h2]; exact h1
+
+theorem restoring_tryExcept {i : Nat} {a h : Stmt} (ha : Restoring a) (hh : Restoring h) :
+    Restoring (.tryExcept i a h) := by
+  intro o s
+  have h1 := ha o s
+  simp only [run]
+  split
+  · next s' heq =>
+    rw [heq] at h1
+    split
+    · rw [hh o s'.next]; exact h1
+    · exact h1
+  · next r _ => exact h1
+
+theorem restoring_choice {i : Nat} {a b : Stmt} (ha : Restoring a) (hb : Restoring b) :
+    Restoring (.choice i a b) := by
+  intro o s
+  simp only [run]
+  split
+  · exact ha o s.next
+  · exact hb o s.next
+
+theorem restoring_ifNone {x : Loc} {a b : Stmt} (ha : Restoring a) (hb : Restoring b) :
+    Restoring (.ifNone x a b) := by
+  intro o s
+  simp only [run]
+  split
+  · exact ha o s
+  · exact hb o s
+
+theorem restoring_ifSet {v : Var} {a b : Stmt} (ha : Restoring a) (hb : Restoring b) :
+    Restoring (.ifSet v a b) := by
+  intro o s
+  simp only [run]
+  split
+  · exact ha o s
+  · exact hb o s
+
+theorem restoring_loop {i : Nat} {a : Stmt} (ha : Restoring a) : Restoring (.loop i a) := by
+  intro o s
+  simp only [run]
+  exact iter_frame (run o a) (fun t => t.env) (fun t => ha o t) _ s.next
+
+theorem restoring_scope {a : Stmt} (ha : Restoring a) : Restoring (.scope a) := by
+  intro o s
+  have h1 := ha o s
+  simp only [run]
+  split
+  · next s' heq => rw [heq] at h1; exact h1
+  · next r _ => exact h1
+
+/-- **restores_seq** - two programs accepted by the checker (each for its own declared set), run one
+after the other - e.g. two calls of the entry points in one process - leave the environment as the
+first one found it.  (Semantic composition: the checker need not accept the sequence itself.) -/
+theorem restores_seq (p q : Stmt) (vs ws : List Var) (hp : restores p vs = true) (hq : restores q ws = true) :
+    ∀ (o : Oracle) (s : St), (run o (.seq p q) s).1.env = s.env :=
+  restoring_seq (restores_restoring hp) (restores_restoring hq)
+
+/-- **restores_tryFinally_neutral** - an accepted block under a finaliser that writes no variable -/
+theorem restores_tryFinally_neutral (p f : Stmt) (vs : List Var) (hp : restores p vs = true)
+    (hf : writes f = []) : ∀ (o : Oracle) (s : St), (run o (.tryFinally p f) s).1.env = s.env :=
+  restoring_tryFinally (restores_restoring hp) (neutral_restoring hf)
+
+/-- **restores_mono** - the checker is monotone in the declared set -/
+theorem restores_mono (p : Stmt) (vs vs' : List Var) (hsub : ∀ v, v ∈ vs → v ∈ vs')
+    (h : restores p vs = true) : restores p vs' = true := by
+  simp only [restores, Bool.and_eq_true, List.all_eq_true] at h ⊢
+  obtain ⟨⟨⟨hw, hn⟩, he⟩, hr⟩ := h
+  refine ⟨⟨⟨fun v hv => ?_, hn⟩, he⟩, hr⟩
+  have := hw v hv
+  simp only [List.contains_iff_mem] at this ⊢
+  exact hsub v this
+
+/-- **restores_iff_writes** - the declared set matters only through `writes p ⊆ vs`: `writes p` is the
+least set for which a program can be accepted -/
+theorem restores_iff_writes (p : Stmt) (vs : List Var) :
+    restores p vs = true ↔ (restores p (writes p) = true ∧ ∀ v, v ∈ writes p → v ∈ vs) := by
+  constructor
+  · intro h
+    refine ⟨?_, restores_only_touches p vs h⟩
+    simp only [restores, Bool.and_eq_true, List.all_eq_true] at h ⊢
+    obtain ⟨⟨⟨_, hn⟩, he⟩, hr⟩ := h
+    exact ⟨⟨⟨fun v hv => by simpa using hv, hn⟩, he⟩, hr⟩
+  · intro ⟨h, hsub⟩
+    exact restores_mono p (writes p) vs hsub h
+
+/-! ### exactness of the checker on a fragment: straight-line save / clobber programs
+
+Straight-line programs over `x = os.environ.get(v)` and `os.environ.pop(v, None)` (no fault point, no restore
+statement): here the checker is exact, not only sound - it accepts iff the semantics restores every initial
+state (iff nothing is popped).  `checker_incomplete_witness` below shows that exactness does not extend to
+an unguarded `os.environ[v] = x` restore. -/
+
+inductive Atom where
+  | save (x : Loc) (v : Var)
+  | pop (v : Var)
+
+def Atom.stmt : Atom → Stmt
+  | .save x v => .save x v
+  | .pop v => .pop v
+
+def straight : List Atom → Stmt
+  | [] => .skip
+  | a :: l => .seq a.stmt (straight l)
+
+def popped : List Atom → List Var
+  | [] => []
+  | .save _ _ :: l => popped l
+  | .pop v :: l => v :: popped l
+
+theorem ana_straight : ∀ (l : List Atom) (a : Abs), a.isNone = [] →
+    ∃ b, ana (straight l) a = ⟨some b, none, none⟩ ∧ ∀ w, w ∈ b.dirty ↔ (w ∈ a.dirty ∨ w ∈ popped l) := by
+  intro l
+  induction l with
+  | nil => intro a _; exact ⟨a, rfl, fun w => by simp [popped]⟩
+  | cons at0 l ih =>
+    intro a ha
+    cases at0 with
+    | save x v =>
+      have hb : (a.bind x v).isNone = [] := by
+        simp only [Abs.bind, Abs.forget]; split <;> simp [ha]
+      have hd : (a.bind x v).dirty = a.dirty := by
+        simp only [Abs.bind, Abs.forget]; split <;> rfl
+      obtain ⟨b, hb1, hb2⟩ := ih (a.bind x v) hb
+      refine ⟨b, ?_, fun w => ?_⟩
+      · simp only [straight, Atom.stmt, ana, onO, hb1, Res.join, joinO]
+      · rw [hb2 w, hd]; simp [popped]
+    | pop v =>
+      have hon : a.origNone v = false := by simp [Abs.origNone, ha]
+      have hb : (a.markDirty v).isNone = [] := by
+        simp only [Abs.markDirty]; split <;> simp [ha]
+      have hd : ∀ w, w ∈ (a.markDirty v).dirty ↔ (w = v ∨ w ∈ a.dirty) := by
+        intro w
+        simp only [Abs.markDirty]
+        split
+        · next hc =>
+          have hv : v ∈ a.dirty := by simpa using hc
+          constructor
+          · intro h; exact Or.inr h
+          · intro h; cases h with
+            | inl h => rw [h]; exact hv
+            | inr h => exact h
+        · simp
+      obtain ⟨b, hb1, hb2⟩ := ih (a.markDirty v) hb
+      refine ⟨b, ?_, fun w => ?_⟩
+      · simp only [straight, Atom.stmt, ana, hon, onO, Res.join, joinO]
+        simp [hb1]
+      · rw [hb2 w, hd w]; simp only [popped, List.mem_cons]
+        constructor
+        · rintro ((h | h) | h)
+          · exact Or.inr (Or.inl h)
+          · exact Or.inl h
+          · exact Or.inr (Or.inr h)
+        · rintro (h | h | h)
+          · exact Or.inl (Or.inr h)
+          · exact Or.inl (Or.inl h)
+          · exact Or.inr h
+
+theorem run_straight (o : Oracle) : ∀ (l : List Atom) (s : St),
+    (run o (straight l) s).2 = .ok ∧
+    ∀ w, (run o (straight l) s).1.env w = if w ∈ popped l then none else s.env w := by
+  intro l
+  induction l with
+  | nil => intro s; exact ⟨rfl, fun w => by simp [popped, straight, run]⟩
+  | cons at0 l ih =>
+    intro s
+    cases at0 with
+    | save x v =>
+      simp only [straight, Atom.stmt, run, popped]
+      exact ih _
+    | pop v =>
+      simp only [straight, Atom.stmt, run, popped]
+      obtain ⟨h1, h2⟩ := ih { s with env := s.env.set v none }
+      refine ⟨h1, fun w => ?_⟩
+      rw [h2 w]
+      by_cases hw : w = v
+      · subst hw; simp [Env.set]
+      · simp [Env.set, hw]
+
+/-- **restores_exact_straight** - on straight-line save / clobber programs the checker is exact: it
+accepts (for the least possible declared set) iff the semantics restores every initial state -/
+theorem restores_exact_straight (l : List Atom) :
+    restores (straight l) (writes (straight l)) = true ↔ Restoring (straight l) := by
+  constructor
+  · exact restores_restoring
+  · intro h
+    have hp : popped l = [] := by
+      cases hl : popped l with
+      | nil => rfl
+      | cons v t =>
+        exfalso
+        let o : Oracle := ⟨fun _ _ => false, fun _ _ => 0, fun _ _ => .other⟩
+        let s : St := ⟨fun _ => some "", fun _ => .other, 0⟩
+        have h1 := congrFun (h o s) v
+        rw [(run_straight o l s).2 v, hl] at h1
+        simp [s] at h1
+    obtain ⟨b, hb1, hb2⟩ := ana_straight l Abs.init rfl
+    have hd : b.dirty = [] := by
+      apply List.eq_nil_iff_forall_not_mem.mpr
+      intro w hw
+      have := (hb2 w).mp hw
+      rw [hp] at this
+      simp [Abs.init] at this
+    simp only [restores, hb1, cleanO, hd, Bool.and_eq_true, List.all_eq_true]
+    refine ⟨⟨⟨fun v hv => by simpa using hv, ?_⟩, ?_⟩, ?_⟩ <;> simp
+
+/-- the boundary of exactness: `x = os.environ.get(v); os.environ.pop(v, None); os.environ[v] = x` restores
+every initial state (when `v` was unset the assignment raises, with nothing changed), but the checker
+rejects it - it wants the None case handled (`if x is None: pop else: assign`), as the real code does -/
+def unguardedRestore : Stmt := .seq (.save "x" "A") (.seq (.pop "A") (.setFrom "A" "x"))
+
+theorem checker_incomplete_witness :
+    Restoring unguardedRestore ∧ restores unguardedRestore ["A"] = false := by
+  refine ⟨?_, by decide⟩
+  intro o s
+  funext w
+  simp only [unguardedRestore, run, Store.set, Val.ofOpt]
+  cases hA : s.env "A" with
+  | none =>
+    simp only [if_true]
+    by_cases hw : w = "A"
+    · subst hw; simp [Env.set, hA]
+    · simp [Env.set, hw]
+  | some t =>
+    simp only [if_true]
+    by_cases hw : w = "A"
+    · subst hw; simp [Env.set, hA]
+    · simp [Env.set, hw]
+
+example : restores (straight [.save "x" "A", .save "y" "B"]) [] = true := by decide
+example : restores (straight [.save "x" "A", .pop "A"]) ["A"] = false := by decide
+
+/-! ### the guarded idiom restores for EVERY body -/
+
+/-- `x = os.environ.get(v); try: <body> finally: (pop v if x is None else os.environ[v] = x)` -/
+def guardIdiom (x : Loc) (v : Var) (b : Stmt) : Stmt :=
+  .seq (.save x v) (.tryFinally b (.ifNone x (.pop v) (.setFrom v x)))
+
+theorem guard_finally_restores (o : Oracle) (x : Loc) (v : Var) (b : Stmt)
+    (hw : ∀ w, w ∈ writes b → w = v) (hx : x ∉ assigns b) (s1 : St) (h1 : s1.sto x = Val.ofOpt (s1.env v)) :
+    (run o (.tryFinally b (.ifNone x (.pop v) (.setFrom v x))) s1).1.env = s1.env := by
+  have hsto : (run o b s1).1.sto x = s1.sto x := run_sto_frame o b s1 x hx
+  have henv : ∀ w, w ≠ v → (run o b s1).1.env w = s1.env w :=
+    fun w hwv => run_env_frame o b s1 w (fun hm => hwv (hw w hm))
+  simp only [run]
+  generalize run o b s1 = r at hsto henv
+  obtain ⟨s', oa⟩ := r
+  simp only at hsto henv
+  cases hv : s1.env v with
+  | none =>
+    have hn : s'.sto x = .none := by rw [hsto, h1, hv]; rfl
+    simp only [hn, if_true]
+    funext w
+    by_cases hwv : w = v
+    · subst hwv; simp [Env.set, hv]
+    · simp [Env.set, hwv, henv w hwv]
+  | some t =>
+    have hn : s'.sto x = .str t := by rw [hsto, h1, hv]; rfl
+    simp only [hn]
+    funext w
+    by_cases hwv : w = v
+    · subst hwv; simp [Env.set, hv]
+    · simp [Env.set, hwv, henv w hwv]
+
+/-- **guard_idiom_restoring** - for EVERY body (any faults, branches, loops, returns, nested handlers) that
+writes no variable other than `v` and does not rebind `x`, the guarded idiom is restoring: a template theorem
+that needs no run of the checker -/
+theorem guard_idiom_restoring (x : Loc) (v : Var) (b : Stmt)
+    (hw : ∀ w, w ∈ writes b → w = v) (hx : x ∉ assigns b) : Restoring (guardIdiom x v b) := by
+  intro o s
+  simp only [guardIdiom, run]
+  exact guard_finally_restores o x v b hw hx _ (by simp [Store.set])
+
+example : Restoring (guardIdiom "x" "A" (.seq (.fault 1) (.seq (.setExpr "A" 2) (.loop 3 (.seq (.pop "A") .ret))))) :=
+  guard_idiom_restoring _ _ _ (by intro w hw; simp [writes] at hw; exact hw) (by simp [assigns])
+
 end PydlVerif.C20
